@@ -14,6 +14,7 @@ namespace OpenMEEG {
             ReadTag(std::istream& is) {
 
                 static char buffer[maxtagsize+1];
+                int ntag = 0;
 
                 try {
                     is.read(buffer,maxtagsize);
@@ -29,12 +30,15 @@ namespace OpenMEEG {
                         is.putback(buffer[i]);
 
                     buffer[n] = '\0'; // Add an end of string.
+                    ntag = n;
 
                 } catch(...) {
                     throw BadHeader();
                 }
 
-                return std::string(buffer);
+                //  Keep every byte read (a binary header contains null characters): the formats decide on the whole tag.
+
+                return std::string(buffer,ntag);
             }
 
             //  Report a write that the device did not accept (full device, quota, ...).
